@@ -478,7 +478,7 @@ func mkModelChan(in *Interp, fr *frame, args []Value) Value {
 func init() {
 	chanReadyHooks["model"] = func(in *Interp, ch *Chan) *Term {
 		owner := ch.Data.(Iface)
-		m := in.prog.LookupMethod(owner.T, nil, "Ready")
+		m := in.lookupMethod(owner.T, "Ready")
 		if m == nil {
 			panic(in.unsupported("model channel owner has no Ready method: " + owner.T.String()))
 		}
@@ -486,17 +486,17 @@ func init() {
 	}
 	chanHooks["model"] = func(in *Interp, ch *Chan, t types.Type, commit bool) (Value, bool) {
 		owner := ch.Data.(Iface)
-		rm := in.prog.LookupMethod(owner.T, nil, "Ready")
+		rm := in.lookupMethod(owner.T, "Ready")
 		ready := in.callFunction(rm, []Value{owner.V}, nil, in.top).(*Term)
 		if !in.Branch(ready) {
 			// A plain receive blocks until ready: the model's Wait() forces readiness.
-			wm := in.prog.LookupMethod(owner.T, nil, "Wait")
+			wm := in.lookupMethod(owner.T, "Wait")
 			if wm == nil {
 				panic(&pathEnd{kind: "infeasible", reason: "blocking receive on a never-ready model channel"})
 			}
 			in.callFunction(wm, []Value{owner.V}, nil, in.top)
 		}
-		m := in.prog.LookupMethod(owner.T, nil, "Recv")
+		m := in.lookupMethod(owner.T, "Recv")
 		r := in.callFunction(m, []Value{owner.V}, nil, in.top).(Tuple)
 		ok := r[1].(*Term).IsTrue()
 		v := r[0].(Iface)
